@@ -616,6 +616,21 @@ impl PoolMap {
             return Ok(evicted);
         }
 
+        // a cell-ref parent whose outputs (or whose descendants' outputs) the new transaction
+        // spends or depends on can not be evicted: the new transaction would lose its own input
+        let required: HashSet<ProposalShortId> = tx
+            .input_pts_iter()
+            .chain(tx.cell_deps_iter().map(|dep| dep.out_point()))
+            .map(|pt| ProposalShortId::from_tx_hash(&pt.tx_hash()))
+            .filter(|id| self.links.inner.contains_key(id))
+            .collect();
+        let cell_ref_parents: HashSet<ProposalShortId> = cell_ref_parents
+            .into_iter()
+            .filter(|id| {
+                !required.contains(id) && self.calc_descendants(id).is_disjoint(&required)
+            })
+            .collect();
+
         if ancestors_count.saturating_sub(cell_ref_parents.len()) <= self.max_ancestors_count {
             // if ancestors count exceed limitation,
             // try to evict some conflicted transactions due to ref cells
